@@ -23,6 +23,7 @@ Definition al_addr (c : gcfg) (origp : Z) : Z := align_forward (w64 (origp + PTR
 Definition al_too_large (c : gcfg) (size : Z) : bool := size >? w64 (w64 (-1) - w64 (PTR_SIZE + g_align c - 1)).
 
 Definition aligned_alloc (c : gcfg) (s : gstate) (size : Z) : option (gstate * Z) :=
+  if size =? 0 then Some (s, 0) else       (* repair ccd321a: a zero size allocation returns nilptr *)
   if al_too_large c size then Some (s, 0) else
   match arena_alloc (g_inner c) (g_arena s) (al_request c size) with
   | None => None
